@@ -54,7 +54,7 @@ static void on_sig(int sig, siginfo_t *si, void *ucv) {
     siglongjmp(jb, 1);
 }
 static int h_n, h_code[4];
-static void handler(const char *m, void *p, int e) { (void)m; (void)p; if (h_n < 4) h_code[h_n] = e; h_n++; }
+static void handler(const char *m, void *p, int e) { (void)m; (void)p; if (h_n < 4) h_code[h_n] = e; h_n++; errno = 0; }   /* a handler may do anything, e.g. log through stdio: errno is not preserved */
 
 static char sigs[256][220], sigcase[256][260]; static long sigcnt[256]; static int nsig; static long n_cases, n_nontriv;
 static const char *cur_fn, *cur_rel; static char cur_cs[260];
@@ -238,14 +238,14 @@ static void g_unicode(void) {
         }
     }
     /* wcsnorm_s around the needed size, all four modes of interest */
-    static const wchar_t *NS[] = { L"é", L"é", L"각", L"각", L"ạ́b", L"ṩ", L"Ǻ", L"Å", L"", L"plain" };
-    for (int si = 0; si < 10; si++) for (int mode = 0; mode < 2; mode++) {
+    static const wchar_t *NS[] = { L"é", L"é", L"각", L"각", L"ạ́b", L"ṩ", L"Ǻ", L"Å", L"", L"plain", L"abc\x1f82", L"ab\xac01", L"\x1f82" };
+    for (int si = 0; si < 13; si++) for (int mode = 0; mode < 2; mode++) for (int known = 0; known < 2; known++) {      /* known: the object size is passed and equals dmax */
         size_t sl = wcslen(NS[si]); const wchar_t *s = mksrc(1, NS[si], (sl + 1) * sizeof(wchar_t));
-        for (size_t dmax = 1; dmax <= sl * 3 + 3; dmax++) {
-            char rel[64]; snprintf(rel, sizeof rel, "%s,%s", mode ? "nfc" : "nfd", dmax > sl * 3 ? "ample" : "tight");
-            begin("wcsnorm_s", rel, "wcsnorm %d %d %zu", si, mode, dmax);
+        for (size_t dmax = 1; dmax <= sl * 3 + 6; dmax++) {
+            char rel[64]; snprintf(rel, sizeof rel, "%s,%s%s", mode ? "nfc" : "nfd", dmax > sl * 3 ? "ample" : "tight", known ? ",size-known" : "");
+            begin("wcsnorm_s", rel, "wcsnorm %d %d %zu %d", si, mode, dmax, known);
             wchar_t *d = mkdest(dmax, 4, 0); size_t len = 0x7777; int r = 0;
-            CALL(r = wcsnorm(d, dmax, s, mode, &len, BOSU));
+            CALL(r = wcsnorm(d, dmax, s, mode, &len, known ? dmax * sizeof(wchar_t) : BOSU));
             judge(1, r != 0, r, SP | CE | SL, 1);
         }
     }
@@ -332,20 +332,21 @@ static void g_os(void) {
         char aref[64]; if (ti <= 1) { asctime_r(&tms[ti], aref); if (dmax >= 26) exp_str = aref; }
         judge(dmax > 0, r != 0, r, SP, 1);
     }
-    time_t tts[] = { 0, 1000000000, -1, 313360441200L, 313360441201L, (time_t)1 << 40, -86400L * 366 * 3000 };
-    for (int ti = 0; ti < 8; ti++) for (int di = 0; di < 9; di++) {
-        size_t dmax = admax[di]; char rel[64]; snprintf(rel, sizeof rel, "%s,%s", dmax == 0 ? "dmax0" : dmax < 26 ? "dmax<26" : dmax < 120 ? "26<=dmax<120" : "dmax>=120", ti == 7 ? "timer-null" : ti < 2 ? "timer-valid" : "timer-extreme");
+    time_t tts[] = { 0, 1000000000, -1, 313360441200L, 313360441201L, (time_t)1 << 40, -86400L * 366 * 3000, 253402300800L, 300000000000L };   /* the last two: five-digit years the library's own range check accepts */
+    for (int ti = 0; ti < 10; ti++) for (int di = 0; di < 9; di++) {
+        size_t dmax = admax[di]; char rel[64]; snprintf(rel, sizeof rel, "%s,%s", dmax == 0 ? "dmax0" : dmax < 26 ? "dmax<26" : dmax < 120 ? "26<=dmax<120" : "dmax>=120", ti == 9 ? "timer-null" : ti < 2 ? "timer-valid" : ti >= 7 ? "timer-five-digit-year" : "timer-extreme");
         begin("ctime_s", rel, "ctime %d %zu", ti, dmax);
-        char *d = mkdest(dmax, 1, 0); int r = 0; const time_t *tp = ti == 7 ? NULL : mksrc(1, &tts[ti], sizeof(time_t));
+        char *d = mkdest(dmax, 1, 0); int r = 0; const time_t *tp = ti == 9 ? NULL : mksrc(1, &tts[ti], sizeof(time_t));
         CALL(r = ctime_s_(d, dmax, tp, BOSU));
         char cref[64]; if (ti <= 1) { ctime_r(&tts[ti], cref); if (dmax >= 26) exp_str = cref; }
+        if (P == 5 && r == -1 && !fault && h_n == 0) continue;     /* the underlying libc conversion failed (five-digit year): a plain -1, not a constraint violation */
         judge(dmax > 0, r != 0, r, SP, 1);
     }
     /* gmtime_s / localtime_s: the out structure is an exact-fit object */
-    for (int which = 0; which < 2; which++) for (int ti = 0; ti < 8; ti++) for (int dn = 0; dn < 2; dn++) {
-        char rel[64]; snprintf(rel, sizeof rel, "%s,%s", ti == 7 ? "timer-null" : ti < 2 ? "timer-valid" : "timer-extreme", dn ? "dest-null" : "dest");
+    for (int which = 0; which < 2; which++) for (int ti = 0; ti < 10; ti++) for (int dn = 0; dn < 2; dn++) {
+        char rel[64]; snprintf(rel, sizeof rel, "%s,%s", ti == 9 ? "timer-null" : ti < 2 ? "timer-valid" : "timer-extreme", dn ? "dest-null" : "dest");
         begin(which ? "localtime_s" : "gmtime_s", rel, "tmconv %d %d %d", which, ti, dn);
-        struct tm *d = dn ? NULL : mkdest(sizeof(struct tm), 1, 0); const time_t *tp = ti == 7 ? NULL : mksrc(1, &tts[ti], sizeof(time_t)); struct tm *r = NULL;
+        struct tm *d = dn ? NULL : mkdest(sizeof(struct tm), 1, 0); const time_t *tp = ti == 9 ? NULL : mksrc(1, &tts[ti], sizeof(time_t)); struct tm *r = NULL;
         CALL(r = (which ? localtime_s_ : gmtime_s_)(tp, d));
         if (P == 6 && !fault && r && d && tp) { struct tm t2; memset(&t2, 0, sizeof t2); if (which) localtime_r(&tts[ti], &t2); else gmtime_r(&tts[ti], &t2);
             if (t2.tm_year != d->tm_year || t2.tm_mon != d->tm_mon || t2.tm_mday != d->tm_mday || t2.tm_hour != d->tm_hour || t2.tm_min != d->tm_min || t2.tm_sec != d->tm_sec || t2.tm_wday != d->tm_wday || t2.tm_yday != d->tm_yday) report("wrong-result"); }
